@@ -19,7 +19,7 @@ claimed = {
  'C09': ("the same expander contract plus the wide-reduction postcondition of the scalar field", "4 C09"),
  'C11': ("ring-mode identity of SSWU with a transcription of RFC 9380 F.2 (all u, incl. the exceptional branch) and of the isogeny with E.1; on-curve and sign facts by Lean-proved lemmas", "4 C11"),
  'C15': ("frame obligations of every exported function: cells of every caller-owned object outside the receiver unchanged, appends into spare capacity modelled, returned slices fresh", "4 C15"),
- 'C16': ("the C15 frame obligations plus 'no package-level variable is ever assigned'; race freedom follows from disjoint write frames (paper argument)", "4 C16"),
+ 'C16': ("the C15 frame obligations plus 'no package-level variable is ever assigned'; no reference to a package-level variable escapes; determinism under any order of the calls follows from disjoint write frames (Lean: SecpMeta.any_order_same) and the Go memory model's DRF-SC guarantee", "4 C16"),
  'C17': ("call-site precondition registered(SHA-256) of crypto.Hash.New discharged from the package's own import closure in every build configuration", "4 C17"),
  'C18': ("loop invariant over a ghost entropy stream: result is the first block with non-zero residue, reduced; read failure is the only panic", "4 C18"),
  'C19': ("schedule-uniformity obligations: within every function reachable from Multiply all paths enter the same module functions in the same order; only the documented k=1 shortcut may bypass the ladder", "4 C19"),
@@ -27,9 +27,9 @@ claimed = {
 notes = {
  'C08': "Assumption: hash_no_x_collision (the two SSWU outputs of one HashToGroup call have different x; the library's affine addition on E' is not complete there) is a precondition no caller can discharge. SHA-256 is an uninterpreted function. ",
  'C09': "SHA-256 is an uninterpreted function. ",
- 'C10': "The obligations are the per-operation refinement conditions (constructors establish the invariant, methods preserve it, frames) plus history lemma programs; the induction over the length of a history is a paper argument. ",
- 'C16': "No model of goroutines: the obligations are the write frames of every exported function and 'no package-level variable is assigned'; that disjoint write frames and read-only shared arguments imply race freedom is a paper argument. ",
- 'C17': "The registered-hash precondition is discharged from the package's import graph (go list -deps, default and purego tags, and 'some unconstrained file imports crypto/sha256'); the step from 'linked' to 'registered' is the documented behaviour of crypto/sha256's init. ",
+ 'C10': "The obligations are the per-operation refinement conditions (constructors establish the invariant, methods preserve it, frames) plus history lemma programs; the induction over the length of a history is the generic Lean theorem SecpMeta.observations_agree_pre_prefix (lemmas/Secp/SecpMeta.lean), instantiated informally with the pool semantics of Go method calls. ",
+ 'C16': "No model of goroutines: the obligations are the write frames of every exported function and 'no package-level variable is assigned'; the obligations also include 'no reference to a package-level variable escapes'. That operations with disjoint write frames and read-only shared arguments commute and each write what they would write alone is proved in Lean (SecpMeta.ops_commute, any_order_same); the step from goroutines to an order of whole operations is the Go memory model's DRF-SC guarantee (not formalised). ",
+ 'C17': "The registered-hash precondition is discharged from the package's import graph ('some file compiled in every configuration imports crypto/sha256', else go list -deps under the configuration analysed; the cone is re-run under each of six alternative build configurations whose file set differs from linux/amd64); the step from 'linked' to 'registered' is the documented behaviour of crypto/sha256's init. ",
  'C18': "crypto/rand.Reader and io.ReadFull are modelled by a ghost stream of 32-byte blocks with an optional read failure. Termination on an all-zero stream is not claimed. ",
  'C19': "The observable is the sequence of module-function entries (the property's own observable), not cycles or cache behaviour. ",
  'C15': "Slices are modelled per length class with symbolic spare capacity; partial overlap between two different slice arguments is not modelled. ",
